@@ -69,6 +69,22 @@ def random_env(rng, d, e, kind="unitary", strength=0.7):
     return Env(d, e, ks, rho_e)
 
 
+def rotated_dephasing_env(rng, d, e, strength=0.7):
+    """A dephasing-type environment written in a rotated system basis: the
+    situation PT-TEMPO produces for non-diagonal coupling operators. Returns
+    (env in the lab basis for the dense oracle, diagonal env whose rank-3
+    tensors are stored, transform_in, transform_out)."""
+    diag_env = random_env(rng, d, e, "dephasing", strength)
+    u = gen.haar_unitary(rng, d)
+    big = np.kron(u, np.eye(e))
+    rot = Env(d, e, [big @ k @ big.conj().T for k in diag_env.kraus],
+              diag_env.rho_e)
+    r = np.kron(u.conj().T, u.T)        # vec(U^dag rho U) = r vec(rho)
+    tin = r.T
+    tout = np.linalg.inv(r).T
+    return rot, diag_env, tin, tout
+
+
 def rank3_tensors(env, nsteps):
     """For a 'dephasing' env the MPO tensor is diagonal in (S_in,S_out)."""
     t = env.mpo_tensor()
@@ -97,8 +113,11 @@ def build_process_tensor(env, nsteps, dt=None, rank3=False, transform=None,
         tin_inv = np.linalg.inv(tin)
         tout_inv = np.linalg.inv(tout)
         # T[a,b,i,o] = sum_jp tin[i,j] T'[a,b,j,p] tout[p,o]
-        tens = [np.einsum('ij,abjp,po->abio', tin_inv, t, tout_inv)
-                for t in tens]
+        if not rank3:
+            tens = [np.einsum('ij,abjp,po->abio', tin_inv, t, tout_inv)
+                    for t in tens]
+        # rank-3 tensors are stored as they are: the caller supplies
+        # transforms such that tin . delta(T') . tout is the lab-frame tensor
     pt = oqupy.SimpleProcessTensor(d, dt=dt, name=name,
                                    description=description, **kw)
     for k, t in enumerate(tens):
